@@ -341,6 +341,17 @@ fn check_tree(rep: &mut Report, case: u64, world: &World, shape: &Shape, ik: usi
         }
         None => rep.inconclusive("tweak-out-of-range"),
     }
+    // the address is the encoding of that scriptPubKey on every network
+    match guarded(std::panic::AssertUnwindSafe(|| [bitcoin::Network::Bitcoin, bitcoin::Network::Testnet, bitcoin::Network::Regtest].map(|n| tr.address(n).script_pubkey().to_bytes()))) {
+        Ok(a) => {
+            if a.iter().any(|x| *x != spk) {
+                rep.violation(case, format!("C15:address:{}", how), format!("address encodes {} but the scriptPubKey is {}: {}", hex(&a[0]), hex(&spk), brief()));
+            } else {
+                rep.count("address-encodes-script-pubkey");
+            }
+        }
+        Err(m) => rep.violation(case, format!("C15:panic:address:{}", norm_loc(&last_panic_loc())), format!("{}: {}", m, brief())),
+    }
     // leaves: same order, depth, script; control blocks prove the leaf against the output key
     let want: Vec<(u8, Vec<u8>)> = model_leaves.iter().map(|(d, s, _)| (*d as u8, s.clone())).collect();
     let got: Vec<(u8, Vec<u8>)> = lv.iter().map(|(d, s, _, _)| (*d, s.clone())).collect();
